@@ -195,8 +195,10 @@ def decode_docs(lines, workdir, tag):
             for t in l.split(' '):
                 k, _, v = t.partition('=')
                 d[k] = v
-            res[si + j * nshard] = d
-    return res
+            if si + j * nshard < len(res):
+                res[si + j * nshard] = d
+    # a reader process that died leaves its remaining lines unanswered: unreadable
+    return [d if d is not None else {'doc': 'FAIL'} for d in res]
 
 def mask_slot(r):
     if r and r[0] == 'S' and r != 'S*':
